@@ -113,7 +113,9 @@ struct Pending {
 /// The gaps on which a second run is required to reproduce the first one's text: printable ASCII, blank,
 /// tab and line feed only (a lone CR or a Unicode blank in front of a comment is taken for code on the
 /// comment's line: finding MISSED-IDEM-UBLANK), and no block comment followed on its line by another
-/// comment (findings MISSED-IDEM-SAMELINE, MISSED-IDEM-TRAIL).
+/// comment (findings MISSED-IDEM-SAMELINE, MISSED-IDEM-TRAIL).  The configurations are restricted too:
+/// lower = 0 (a lower bound is only applied where the source had a line break) and upper >= 1 (finding
+/// MISSED-IDEM-UPPER0).
 fn idem_family(gap: &str) -> bool {
     if !gap.chars().all(|c| c == ' ' || c == '\t' || c == '\n' || (c.is_ascii_graphic())) {
         return false;
@@ -173,7 +175,7 @@ impl<'a> Sink<'a> {
             let k = mk_config(p.call.cfg);
             let first = run_real(&p.call, &k);
             let second = match &first {
-                Some(a) if p.idem && p.consistent && p.oracles && p.call.cfg.lower == 0 => second_call(&p.call, a).filter(|c2| is_blank_gap(&c2.text[c2.last_pos..c2.end])).map(|c2| {
+                Some(a) if p.idem && p.consistent && p.oracles && p.call.cfg.lower == 0 && p.call.cfg.upper >= 1 => second_call(&p.call, a).filter(|c2| is_blank_gap(&c2.text[c2.last_pos..c2.end])).map(|c2| {
                     let r = run_real(&c2, &k);
                     (c2, r)
                 }),
@@ -525,6 +527,12 @@ pub fn probes(o: &mut Outcome) {
     };
     twice(o, "MISSED-IDEM-SAMELINE", "fn a() {}\n/* a */ /* b */\nfn b() {}\n", "two comments on one line between items, the first a block comment: process_comment breaks the line behind the first and then writes the second as if it still followed code on that line (one blank in front, no indentation): `/* a */` newline ` /* b */`; a second run re-indents it");
     twice(o, "MISSED-IDEM-TRAIL", "fn a() {} /* c */// c\n/* d */\nfn b() {}\n", "a block comment that trails code, directly followed by a line comment and, at the start of the next line, by another comment (one comment slice): the later lines are aligned with the first comment; a second run sees them as comments of their own and re-indents them");
+    {
+        let src = "fn main() {\n    let x = 1; // c\n\n    // d\n    let y = 2;\n}\n";
+        let r1 = fmt(src, &[("blank_lines_upper_bound", "0")]);
+        let r2 = fmt(&r1.out, &[("blank_lines_upper_bound", "0")]);
+        o.probes.push(json!({"id": "MISSED-IDEM-UPPER0", "fails": r1.status == Status::Ok && r2.status == Status::Ok && r1.out != r2.out, "what": "blank_lines_upper_bound = 0: a line comment that trails code, a blank line, a line comment: the blank line goes, and a second run takes the two comments for one group and aligns the second with the first", "detail": {"src": src, "first": r1.out, "second": r2.out}}));
+    }
     twice(o, "MISSED-IDEM-UBLANK", "mod m {\u{2028}// c\n    fn a() {}\n}\n", "a Unicode blank other than space and tab (here U+2028; also a lone CR, U+00A0, U+3000) between `{` and a comment: process_comment looks for the last character that is not a space or a tab, finds the blank and takes the comment for one that trails code; the blank is dropped, and a second run moves the comment to its own line");
     {
         let src = "fn main() {\n    let x = 1; // c\n    /* d */\n    let y = 2;\n}\n";
